@@ -23,7 +23,7 @@ theorem Inv.empty : Inv Heap.empty := by
 theorem mkConn_spec {H H' : Heap} {t own plain n} (h : mkConn H t own plain = some (H', n)) :
     ∃ as cn, ownAdapters H own = some as ∧ n = H.conns.length ∧ H'.conns = H.conns ++ [cn] ∧
       cn.alist = H.lists.length ∧ cn.plain = plain ∧
-      H'.userLists = H.userLists ∧ H'.dicts = H.dicts ∧ H'.callers = H.callers ∧
+      H'.userLists = H.userLists ∧ (H'.dicts = H.dicts ∧ H'.userDicts = H.userDicts) ∧ H'.callers = H.callers ∧
       ((∃ p pc pl, t = .conn p ∧ H.conns[p]? = some pc ∧ H.lists[pc.alist]? = some pl ∧
           H'.lists = H.lists ++ [as ++ pl] ∧ cn.impl = pc.impl ∧ H'.impls = H.impls) ∨
        (∃ a isStr sid, t = .addr a isStr sid ∧ H'.lists = H.lists ++ [as] ∧ cn.impl = H.impls.length ∧
@@ -41,10 +41,10 @@ theorem mkConn_spec {H H' : Heap} {t own plain n} (h : mkConn H t own plain = so
         · cases h
         · rename_i pl hpl
           cases h
-          exact ⟨as, _, has, rfl, rfl, rfl, rfl, rfl, rfl, rfl, Or.inl ⟨p, pc, pl, rfl, hpc, hpl, rfl, rfl, rfl⟩⟩
+          exact ⟨as, _, has, rfl, rfl, rfl, rfl, rfl, ⟨rfl, rfl⟩, rfl, Or.inl ⟨p, pc, pl, rfl, hpc, hpl, rfl, rfl, rfl⟩⟩
     · rename_i a isStr sid
       cases h
-      exact ⟨as, _, has, rfl, rfl, rfl, rfl, rfl, rfl, rfl, Or.inr ⟨a, isStr, sid, rfl, rfl, rfl, rfl⟩⟩
+      exact ⟨as, _, has, rfl, rfl, rfl, rfl, rfl, ⟨rfl, rfl⟩, rfl, Or.inr ⟨a, isStr, sid, rfl, rfl, rfl, rfl⟩⟩
 
 /-- generic extension of the heap by one fresh list and one connection that owns it -/
 theorem Inv.extend {H H' : Heap} (hi : Inv H) (x : List Adapter) (cn : Conn)
@@ -141,7 +141,8 @@ theorem Inv.setImpl {H : Heap} (hi : Inv H) (r : Nat) (x : Impl) :
   · exact hi.user_ok
   · exact hi.caller_ok
 
-theorem Inv.setDicts {H : Heap} (hi : Inv H) (d : List UDict) : Inv { H with dicts := d } :=
+theorem Inv.setDicts {H : Heap} (hi : Inv H) (d : List Dict) (u : List Nat) :
+    Inv { H with dicts := d, userDicts := u } :=
   ⟨hi.conn_ok, hi.conn_inj, hi.user_ok, hi.caller_ok⟩
 
 theorem getElem?_set_cases {α} {l : List α} {k j : Nat} {x y : α} (h : (l.set k x)[j]? = some y) :
@@ -156,22 +157,163 @@ theorem getElem?_set_cases {α} {l : List α} {k j : Nat} {x y : α} (h : (l.set
   · rw [List.getElem?_set_ne hk] at h
     exact Or.inr h
 
-theorem request_heap (H : Heap) (c : Nat) (args : Args) :
-    (request H c args).1 = H ∨ ∃ r x, (request H c args).1 = { H with impls := H.impls.set r x } := by
-  unfold request
-  split
-  · split
-    · exact Or.inl rfl
-    · simp only []
-      split
-      · exact Or.inr ⟨_, _, rfl⟩
-      · exact Or.inl rfl
-  · exact Or.inl rfl
+/-! ## a request: the adapters write to the fresh header object only -/
 
-theorem request_inv {H : Heap} (hi : Inv H) (c : Nat) (args : Args) : Inv (request H c args).1 := by
-  rcases request_heap H c args with h | ⟨r, x, h⟩
-  · rw [h]; exact hi
-  · rw [h]; exact hi.setImpl r x
+theorem set_getElem?_self {α} {l : List α} {w : Nat} {d : α} (h : l[w]? = some d) : l.set w d = l := by
+  obtain ⟨hlt, hg⟩ := List.getElem?_eq_some_iff.mp h
+  apply List.ext_getElem? ; intro i
+  by_cases hi : w = i
+  · subst hi; simp [hlt, hg]
+  · rw [List.getElem?_set_ne hi]
+
+theorem applyReqH_spec (a : Adapter) (H : Heap) (w : Nat) (path : Str) (d : Dict) (hd : H.dicts[w]? = some d) :
+    match applyReq a { path, headers := d } with
+    | .ok ra => applyReqH a H w path = ({ H with dicts := H.dicts.set w ra.headers }, .ok ra.path)
+    | .error e => applyReqH a H w path = (H, .error e) := by
+  unfold applyReqH
+  rw [hd]
+  cases h : applyReq a { path, headers := d } <;> simp only [h]
+
+/-- the heap loop is the pure loop run on the content of cell `w`; no other cell is touched -/
+theorem applyAllH_spec (as : List Adapter) (H : Heap) (w : Nat) (path : Str) (d : Dict)
+    (hd : H.dicts[w]? = some d) :
+    match applyAll as { path, headers := d } with
+    | .ok ra => applyAllH as H w path = ({ H with dicts := H.dicts.set w ra.headers }, .ok ra.path)
+    | .error e => ∃ d', applyAllH as H w path = ({ H with dicts := H.dicts.set w d' }, .error e) := by
+  induction as generalizing H path d with
+  | nil =>
+    simp only [applyAll, applyAllH]
+    rw [set_getElem?_self hd]
+  | cons a as ih =>
+    have h1 := applyReqH_spec a H w path d hd
+    simp only [applyAll, applyAllH]
+    cases hr : applyReq a { path, headers := d } with
+    | error e =>
+      rw [hr] at h1
+      simp only [h1]
+      exact ⟨d, by rw [set_getElem?_self hd]⟩
+    | ok r1 =>
+      rw [hr] at h1
+      simp only [h1]
+      have hlt := (List.getElem?_eq_some_iff.mp hd).1
+      have hd' : ({ H with dicts := H.dicts.set w r1.headers } : Heap).dicts[w]? = some r1.headers := by
+        simp [hlt]
+      have h2 := ih { H with dicts := H.dicts.set w r1.headers } r1.path r1.headers hd'
+      cases hr2 : applyAll as { path := r1.path, headers := r1.headers } with
+      | ok ra =>
+        rw [hr2] at h2
+        have : ({ path := r1.path, headers := r1.headers } : RA) = r1 := rfl
+        rw [this] at hr2
+        simp only [hr2, h2, List.set_set]
+      | error e =>
+        rw [hr2] at h2
+        obtain ⟨d', h2⟩ := h2
+        have : ({ path := r1.path, headers := r1.headers } : RA) = r1 := rfl
+        rw [this] at hr2
+        simp only [hr2]
+        exact ⟨d', by rw [h2]; simp only [List.set_set]⟩
+
+/-- the result of a request, computed without the heap of header objects -/
+def requestPure (H : Heap) (c : Nat) (args : Args) : Except Err Sent :=
+  match connView H c, optDict H args.headers, optParams H args.params with
+  | some (_, impl, as), some hd, some pd =>
+    match applyAll as { path := args.path, headers := copyHeaders hd } with
+    | .error e => .error e
+    | .ok ra => .ok (assemble impl ra args.method pd args.data (respFold as (decodeResp args.raw args.resp)))
+  | _, _, _ => .error .keyError
+
+/-- everything a request does to the heap -/
+structure ReqEffect (H H' : Heap) : Prop where
+  lists : H'.lists = H.lists
+  userLists : H'.userLists = H.userLists
+  userDicts : H'.userDicts = H.userDicts
+  conns : H'.conns = H.conns
+  callers : H'.callers = H.callers
+  dicts : H'.dicts = H.dicts ∨ ∃ d', H'.dicts = H.dicts ++ [d']
+  impls : H'.impls = H.impls ∨
+    ∃ r imp, H.impls[r]? = some imp ∧ H'.impls = H.impls.set r { imp with ctr := imp.ctr + 1 }
+
+theorem connView_impl {H : Heap} {c : Nat} {cn : Conn} {impl : Impl} {as : List Adapter}
+    (hv : connView H c = some (cn, impl, as)) : H.impls[cn.impl]? = some impl := by
+  unfold connView at hv
+  split at hv
+  · cases hv
+  · split at hv
+    · rename_i h1 _; cases hv; exact h1
+    · cases hv
+
+theorem request_spec (H : Heap) (c : Nat) (args : Args) :
+    (request H c args).2 = requestPure H c args ∧ ReqEffect H (request H c args).1 ∧
+    ((∃ e, (request H c args).2 = .error e) → (request H c args).1.impls = H.impls) := by
+  have same : ReqEffect H H := ⟨rfl, rfl, rfl, rfl, rfl, Or.inl rfl, Or.inl rfl⟩
+  unfold request requestPure
+  cases hv : connView H c with
+  | none => exact ⟨rfl, same, fun _ => rfl⟩
+  | some v =>
+    obtain ⟨cn, impl, as⟩ := v
+    cases hh : optDict H args.headers with
+    | none => exact ⟨rfl, same, fun _ => rfl⟩
+    | some hd =>
+      cases hp : optParams H args.params with
+      | none => exact ⟨rfl, same, fun _ => rfl⟩
+      | some pd =>
+        simp only []
+        have hw : ({ H with dicts := H.dicts ++ [copyHeaders hd] } : Heap).dicts[H.dicts.length]? =
+            some (copyHeaders hd) := by simp
+        have hs := applyAllH_spec as { H with dicts := H.dicts ++ [copyHeaders hd] } H.dicts.length args.path
+          (copyHeaders hd) hw
+        cases ha : applyAll as { path := args.path, headers := copyHeaders hd } with
+        | error e =>
+          rw [ha] at hs
+          obtain ⟨d', hs⟩ := hs
+          simp only [hs]
+          refine ⟨?_, ⟨?_, ?_, ?_, ?_, ?_, Or.inr ⟨d', ?_⟩, Or.inl ?_⟩, fun _ => ?_⟩ <;> first | rfl | simp
+        | ok ra =>
+          rw [ha] at hs
+          simp only [hs]
+          have hget : ((H.dicts ++ [copyHeaders hd]).set H.dicts.length ra.headers)[H.dicts.length]? =
+              some ra.headers := by simp
+          simp only [hget]
+          have era : ({ path := ra.path, headers := ra.headers } : RA) = ra := rfl
+          rw [era]
+          cases hg : (assemble impl ra args.method pd args.data
+              (respFold as (decodeResp args.raw args.resp))).genId with
+          | none =>
+            simp only []
+            refine ⟨?_, ⟨?_, ?_, ?_, ?_, ?_, Or.inr ⟨finalHeaders impl ra args.data, ?_⟩, Or.inl ?_⟩, ?_⟩
+            all_goals first | rfl | simp
+          | some g =>
+            simp only []
+            refine ⟨?_, ⟨?_, ?_, ?_, ?_, ?_, Or.inr ⟨finalHeaders impl ra args.data, ?_⟩,
+              Or.inr ⟨cn.impl, impl, connView_impl hv, ?_⟩⟩, ?_⟩
+            all_goals first | rfl | simp
+
+theorem request_effect (H : Heap) (c : Nat) (args : Args) : ReqEffect H (request H c args).1 :=
+  (request_spec H c args).2.1
+
+/-- a heap that differs only in the content of lists / dicts / counters of equal length, keeps `Inv` -/
+theorem Inv.ofEffect {H H' : Heap} (hi : Inv H) (e : ReqEffect H H') : Inv H' := by
+  have hil : H'.impls.length = H.impls.length := by
+    rcases e.impls with h | ⟨r, imp, _, h⟩ <;> rw [h] <;> simp
+  constructor
+  · intro i c h
+    rw [e.conns] at h
+    have := hi.conn_ok i c h
+    rw [e.lists, hil]; exact this
+  · intro i j ci cj h1 h2
+    rw [e.conns] at h1 h2
+    exact hi.conn_inj i j ci cj h1 h2
+  · intro l hl
+    rw [e.userLists] at hl
+    rw [e.lists, e.conns]
+    exact hi.user_ok l hl
+  · intro k cl h
+    rw [e.callers] at h
+    rw [e.conns]
+    exact hi.caller_ok k cl h
+
+theorem request_inv {H : Heap} (hi : Inv H) (c : Nat) (args : Args) : Inv (request H c args).1 :=
+  hi.ofEffect (request_effect H c args)
 
 /-- the three things `get_conn` can do to the heap -/
 theorem getConn_heap (H : Heap) (k : Nat) (comps : Option (List Str)) :
@@ -268,7 +410,7 @@ theorem step_inv {H : Heap} (hi : Inv H) (op : Op) : Inv (step H op).1 := by
       · exact hi.setList _ _
       · exact hi
     · exact hi
-  | newDict d => exact hi.setDicts _
+  | newDict d => exact hi.setDicts _ _
   | mk t own plain =>
     simp only [step]
     split
@@ -395,43 +537,23 @@ theorem viewCore_mkConn {H H' : Heap} {t own plain n} (hi : Inv H) (h : mkConn H
 theorem viewCore_callers (H : Heap) (cs : List Caller) (c : Nat) :
     viewCore { H with callers := cs } c = viewCore H c := rfl
 
-/-- sharper form of `request_heap`: only the counter of one `conn_impl` moves -/
-theorem request_heap' (H : Heap) (c : Nat) (args : Args) :
-    (request H c args).1 = H ∨
-    ∃ r imp, H.impls[r]? = some imp ∧
-      (request H c args).1 = { H with impls := H.impls.set r { imp with ctr := imp.ctr + 1 } } := by
-  unfold request
-  split
-  · rename_i cn impl as hd pd hv _ _
-    split
-    · exact Or.inl rfl
-    · simp only []
-      split
-      · refine Or.inr ⟨cn.impl, impl, ?_, rfl⟩
-        unfold connView at hv
-        split at hv
-        · cases hv
-        · split at hv
-          · rename_i h1 _; cases hv; exact h1
-          · cases hv
-      · exact Or.inl rfl
-  · exact Or.inl rfl
-
-theorem viewCore_request (H : Heap) (c' : Nat) (args : Args) (c : Nat) :
-    viewCore (request H c' args).1 c = viewCore H c := by
-  rcases request_heap' H c' args with h | ⟨r, imp, hr, h⟩
-  · rw [h]
-  · rw [h]
-    apply viewCore_congr
-    · rfl
-    · intros; rfl
-    · intro cn _
-      simp only []
+theorem viewCore_ofEffect {H H' : Heap} (e : ReqEffect H H') (c : Nat) : viewCore H' c = viewCore H c := by
+  apply viewCore_congr
+  · rw [e.conns]
+  · intro cn _; rw [e.lists]
+  · intro cn _
+    rcases e.impls with h | ⟨r, imp, hr, h⟩
+    · rw [h]
+    · rw [h]
       by_cases hrc : r = cn.impl
       · subst hrc
         obtain ⟨hlt, hget⟩ := List.getElem?_eq_some_iff.mp hr
         simp [hlt, implStatic, hget]
       · rw [List.getElem?_set_ne hrc]
+
+theorem viewCore_request (H : Heap) (c' : Nat) (args : Args) (c : Nat) :
+    viewCore (request H c' args).1 c = viewCore H c :=
+  viewCore_ofEffect (request_effect H c' args) c
 
 theorem viewCore_getConn {H : Heap} (hi : Inv H) (k : Nat) (comps : Option (List Str)) {c : Nat}
     (hc : c < H.conns.length) : viewCore (getConn H k comps).1 c = viewCore H c := by
@@ -449,8 +571,8 @@ theorem getConn_conns_le {H : Heap} (k : Nat) (comps : Option (List Str)) :
     obtain ⟨_, _, _, _, hcs, _⟩ := mkConn_spec hmk
     simp [hcs]
 
-theorem request_conns (H : Heap) (c : Nat) (args : Args) : (request H c args).1.conns = H.conns := by
-  rcases request_heap H c args with h | ⟨r, x, h⟩ <;> rw [h]
+theorem request_conns (H : Heap) (c : Nat) (args : Args) : (request H c args).1.conns = H.conns :=
+  (request_effect H c args).conns
 
 /-- the operation appends an adapter to the list of connection `c` -/
 def Op.addsTo (c : Nat) : Op → Prop
